@@ -414,8 +414,18 @@ func meshes2(r *vlib.Run) {
 		}
 		{
 			const iters = 24
-			cs := model2d.ColliderToSDF(model2d.MeshToCollider(model2d.NewMeshSegments(faces)), iters)
+			var coll model2d.Collider = model2d.MeshToCollider(model2d.NewMeshSegments(faces))
 			capi := "model2d.ColliderToSDF[MeshToCollider]"
+			padded := rng.Intn(3) == 0
+			if padded {
+				// see paddedCollider3
+				pad := size * (0.1 + rng.Float64())
+				coll = &paddedCollider2{Rect: &model2d.Rect{MinVal: coll.Min().AddScalar(-pad), MaxVal: coll.Max().AddScalar(pad)}, Inner: coll}
+				capi = "model2d.ColliderToSDF[caller's collider embedding *Rect]"
+				c.Count("mesh2d.ColliderToSDF.colliders_embedding_a_rect", 1)
+			}
+			cs := model2d.ColliderToSDF(coll, iters)
+			csolid := model2d.NewColliderSolid(coll)
 			for qi := 0; qi < 4; qi++ {
 				d := g.Sub2(hi, lo)
 				p := g.V2(lo.X-0.5*d.X+2*d.X*rng.Float64(), lo.Y-0.5*d.Y+2*d.Y*rng.Float64())
@@ -433,10 +443,14 @@ func meshes2(r *vlib.Run) {
 				}
 				c.Count("mesh2d.ColliderToSDF.distance_ok", 1)
 				if mc.closed && dist > 2*tol+1e-7*size && rayClearance2(p, libRayDir2, ss) >= 1e-7 && rayClearance2(p, g.V2(1, 0), ss) >= 1e-9 {
-					if inside := g.Parity2(p, ss); (v > 0) != inside {
+					inside := g.Parity2(p, ss)
+					if (v > 0) != inside {
 						c.Violation(capi+".SDF/sign", fmt.Sprintf("SDF=%.17g but the crossing parity says %s", v, inout(inside)), wit(p, nil))
 					} else {
 						c.Count("mesh2d.ColliderToSDF.sign_ok", 1)
+					}
+					if padded && csolid.Contains(model2d.XY(p.X, p.Y)) != inside {
+						c.Violation("model2d.NewColliderSolid[caller's collider embedding *Rect].Contains/even-odd", fmt.Sprintf("Contains=%v but the crossing parity says %s", !inside, inout(inside)), wit(p, nil))
 					}
 				}
 			}
@@ -511,5 +525,67 @@ func profiles(r *vlib.Run) {
 			s2 := &subject3{api: "model3d.ProfilePointSDF", tag: "ProfilePointSDF", sdf: lib, point: lib, ref: ref, params: params, quiet: polyMesh, baseOK: baseOK}
 			runSubject3(c, s2, 16)
 		}
+		// extrusions that are unbounded on one or both sides (minZ = -Inf and/or maxZ = +Inf): the
+		// field is that of the same prism cut far away (1e7 sizes), where the cut cannot be the
+		// nearest part for any query made here
+		if c.Index%4 == 1 {
+			lo, hi := minZ, maxZ
+			switch rng.Intn(3) {
+			case 0:
+				hi = math.Inf(1)
+			case 1:
+				lo = math.Inf(-1)
+			default:
+				lo, hi = math.Inf(-1), math.Inf(1)
+			}
+			far := 1e7 * (sz + math.Abs(minZ) + math.Abs(maxZ))
+			cutLo, cutHi := math.Max(lo, -far), math.Min(hi, far)
+			libCut := model3d.ProfileSDF(base.sdf, cutLo, cutHi)
+			libU := model3d.ProfileSDF(base.sdf, lo, hi)
+			var libUP, libCutP model3d.PointSDF
+			if base.point != nil {
+				libUP = model3d.ProfilePointSDF(base.point, lo, hi)
+				libCutP = model3d.ProfilePointSDF(base.point, cutLo, cutHi)
+			}
+			wit := map[string]interface{}{"base": base.api, "params": params, "minZ": lo, "maxZ": hi, "cut_at": far}
+			for i := 0; i < 8; i++ {
+				p, _ := query3(rng, ref)
+				if math.Abs(p.Z) > 1e3*(sz+math.Abs(minZ)+math.Abs(maxZ)) || !fin3(p) {
+					continue
+				}
+				q := model3d.XYZ(p.X, p.Y, p.Z)
+				want := libCut.SDF(q)
+				tol := 1e-12 * (math.Abs(want) + base.scale + sz + g.MaxAbs3(p))
+				wit["query_hex"] = fmt.Sprintf("(%x,%x,%x)", p.X, p.Y, p.Z)
+				c.Count("Profile.unbounded_extent.queries", 1)
+				if v := libU.SDF(q); !(math.Abs(v-want) <= tol) {
+					c.Violation("model3d.ProfileSDF.SDF/value-with-unbounded-extent", fmt.Sprintf("SDF=%.17g, the same prism cut far away gives %.17g (tol %.3g)", v, want, tol), wit)
+					break
+				}
+				if libUP != nil {
+					np, v := libUP.PointSDF(q)
+					wp, wv := libCutP.PointSDF(q)
+					if !(math.Abs(v-wv) <= tol) || !(np.Dist(wp) <= tol) {
+						c.Violation("model3d.ProfilePointSDF.PointSDF/value-with-unbounded-extent", fmt.Sprintf("PointSDF=(%v, %.17g); the same prism cut far away gives (%v, %.17g) (tol %.3g)", np, v, wp, wv, tol), wit)
+						break
+					}
+				}
+			}
+		}
 	})
+}
+
+type paddedCollider2 struct {
+	*model2d.Rect
+	Inner model2d.Collider
+}
+
+func (p *paddedCollider2) RayCollisions(r *model2d.Ray, f func(model2d.RayCollision)) int {
+	return p.Inner.RayCollisions(r, f)
+}
+func (p *paddedCollider2) FirstRayCollision(r *model2d.Ray) (model2d.RayCollision, bool) {
+	return p.Inner.FirstRayCollision(r)
+}
+func (p *paddedCollider2) CircleCollision(c model2d.Coord, r float64) bool {
+	return p.Inner.CircleCollision(c, r)
 }
